@@ -133,6 +133,10 @@ def adversarial(rng, prog, opts=None):
                 nm = rng.choice(PARAM_POOL)
             seen.add(nm)
             out.append(nm)
+        if n >= 2 and rng.random() < opts.get("p_blank_then_local", 0.3):
+            # func Init(_ Foo, foo Bar): the blank parameter gets a name derived from its type, which the next one already has
+            k = rng.randrange(1, n)
+            out[k - 1], out[k] = "_", "@local"
         u.inj["argnames"] = out
 
 
